@@ -108,6 +108,9 @@ func (c *vcase) columns() [][]*VVal {
 func (c *vcase) features() map[string]bool {
 	f := map[string]bool{}
 	for i, col := range c.columns() {
+		if len(col) == 0 {
+			continue // the writer never sees a type without values
+		}
 		for k := range Features(c.Types[i], col) {
 			f[k] = true
 		}
@@ -442,6 +445,20 @@ func (h *harness) checkCase(vc *vcase, checks map[string]bool) {
 			c.Fail("correspondence", "C03:corr:generator-not-conforming", "the model rejects a generated value as ill-formed: "+trunc(vc.modelInput(), 300), vc.replay("enc"))
 		}
 		top = ans[1]
+	}
+	// T2 for the guard of the vector-path theorems: the model's `seqOK` must be exactly the
+	// complement of the recorded defect classes the harness classifies by
+	if checks["vec"] {
+		g := m.Call("(C03 guard " + vc.modelInput() + ")")
+		inGuard := !(feat["enum"] || feat["null-union"] || feat["error-under-null"])
+		c.Res.ModelCases++
+		if (g == "1") != inGuard {
+			c.Fail("correspondence", "C03:corr:guard", fmt.Sprintf("model guard seqOK=%s but harness features enum=%v null-union=%v error-under-null=%v for %s", g, feat["enum"], feat["null-union"], feat["error-under-null"], trunc(vc.modelInput(), 300)), vc.replay("vec"))
+		} else if inGuard {
+			c.Stat("guard:inside")
+		} else {
+			c.Stat("guard:outside")
+		}
 	}
 	ops := []string{"rows", "dump"}
 	if checks["enc"] && wf {
